@@ -166,6 +166,7 @@ type Explorer struct {
 	// path is remembered (st.ali), so rules can ask where a value came from.
 	AliasPhis map[*ssa.Phi]bool
 	byKeyPhi  map[string]*ssa.Phi
+	spillKeys map[string]bool // "*(alloc)" cells of memory-resident locals whose content is followed (st.ali)
 	// Filter, when set, restricts which fact keys are remembered at all (keys
 	// forced with Track are always kept). Rules use it to leave out conditions
 	// that cannot matter for them (configuration fields, integer counters), which
@@ -180,7 +181,7 @@ type Explorer struct {
 
 func NewExplorer(p *Prog, fn *ssa.Function, h Hooks) *Explorer {
 	x := &Explorer{P: p, Fn: fn, H: h, ids: map[ssa.Value]int{}, canon: map[ssa.Value]string{},
-		defs: map[*ssa.BasicBlock][]string{}, MaxStates: 400000, escAlloc: map[*ssa.Alloc]bool{}, byKey: map[string]ssa.Value{}}
+		defs: map[*ssa.BasicBlock][]string{}, MaxStates: 400000, escAlloc: map[*ssa.Alloc]bool{}, byKey: map[string]ssa.Value{}, spillKeys: map[string]bool{}}
 	x.mods = p.modInfo()
 	x.storedField, x.storedAlloc, x.storedGlobal = map[*types.Var]bool{}, map[*ssa.Alloc]bool{}, map[*ssa.Global]bool{}
 	for _, b := range fn.Blocks {
@@ -465,6 +466,9 @@ func (x *Explorer) pruneDead(st *State, b *ssa.BasicBlock) {
 			continue
 		}
 		if v := x.byKeyPhi[k]; v != nil && x.AliasPhis[v] {
+			continue
+		}
+		if x.spillKeys[k] {
 			continue
 		}
 		if l := x.liveAt[k]; l == nil || !l[b.Index] {
@@ -903,6 +907,7 @@ func (x *Explorer) assume(st *State, v ssa.Value, want bool, depth int) {
 	if k := x.Canon(v); x.tracked(k) {
 		st.facts[k] = absOf(want)
 	}
+	x.toSpilled(st, v, absOf(want))
 	if bo, ok := v.(*ssa.BinOp); ok {
 		if fk := x.flipKey(bo); fk != "" && x.tracked(fk) {
 			st.facts[fk] = absOf(!want)
@@ -1007,10 +1012,37 @@ func (x *Explorer) setNil(st *State, v ssa.Value, isNil bool) {
 	if k := x.Canon(v); x.tracked(k) {
 		st.facts[k] = absOf(!isNil)
 	}
+	x.toSpilled(st, v, absOf(!isNil))
 	if phi, ok := v.(*ssa.Phi); ok && !st.inRefine {
 		st.inRefine = true
 		x.refinePhi(st, phi, absOf(!isNil), 0)
 		st.inRefine = false
+	}
+}
+
+// toSpilled: v is a register read from a memory-resident local variable; what
+// is learnt about it is learnt about the value that was stored there.
+func (x *Explorer) toSpilled(st *State, v ssa.Value, a Abs) {
+	u, ok := v.(*ssa.UnOp)
+	if !ok || u.Op != token.MUL {
+		return
+	}
+	if _, isAlloc := u.X.(*ssa.Alloc); !isAlloc {
+		return
+	}
+	tgt, ok := st.ali[x.Canon(v)]
+	if !ok {
+		return
+	}
+	if x.tracked(tgt) {
+		st.facts[tgt] = a
+	}
+	if ov := x.byKey[tgt]; ov != nil {
+		if phi, isPhi := ov.(*ssa.Phi); isPhi && !st.inRefine {
+			st.inRefine = true
+			x.refinePhi(st, phi, a, 0)
+			st.inRefine = false
+		}
 	}
 }
 
@@ -1290,6 +1322,12 @@ func (x *Explorer) effect(st *State, in ssa.Instruction) {
 		if in.Op == token.MUL && x.unstableLoad(in) {
 			mem := "*(" + x.Canon(in.X) + ")"
 			k := x.Canon(in)
+			// a variable kept in memory (named results are, once the function defers): the register read from it
+			// is the value last stored there
+			if tgt, ok := st.ali[mem]; ok {
+				st.ali[k] = tgt
+				x.spillKeys[k] = true
+			}
 			if a, ok := st.facts[mem]; ok && a != Unknown && x.allowed(k) {
 				st.facts[k] = a
 			}
@@ -1313,6 +1351,18 @@ func (x *Explorer) effect(st *State, in ssa.Instruction) {
 		for k := range st.ints {
 			if k != key && strings.Contains(k, key) {
 				delete(st.ints, k)
+			}
+		}
+		delete(st.ali, key)
+		if a, isAlloc := in.Addr.(*ssa.Alloc); isAlloc && !x.escAlloc[a] && (isBool(in.Val.Type()) || nilable(in.Val.Type())) {
+			if _, isC := in.Val.(*ssa.Const); !isC {
+				vk := x.Canon(stripConv(in.Val))
+				if st.ali == nil {
+					st.ali = map[string]string{}
+				}
+				st.ali[key] = vk
+				x.byKey[vk] = stripConv(in.Val)
+				x.spillKeys[key] = true
 			}
 		}
 		if !x.allowed(key) {
